@@ -38,35 +38,20 @@ TEXT_MODULES = ('cryptoparser.httpx.', 'cryptoparser.dnsrec.txt', 'cryptoparser.
 
 
 def family_key(clause, name, text, case=None):
-    if case is not None and case.get('origin') == 'mutant' and case['cls'].startswith(TEXT_MODULES):
+    """Root-cause family of a deviation, or None for the precise per-class key."""
+    text_class = case is not None and case['cls'].startswith(TEXT_MODULES)
+    if text_class and case.get('origin') == 'mutant':
         # the text parsers are lenient by design of their building blocks (dateutil dates, urllib3 URLs, CSP host
         # sources, quote stripping): a byte-mutated header that is still accepted is "garbage in"; its handling is
-        # recorded as one family per clause, the precise per-class keys are kept for seeds and grammar variants
+        # recorded as one family per clause.  Seeds and grammar variants of text classes keep precise keys.
         return 'text-mutant:%s' % clause.split(':')[0]
-    return _family_key(clause, name, text)
-
-
-def _family_key(clause, name, text):
-    """Root-cause family of a deviation seen on an accepted-but-odd input (one known defect shows up through many
-    classes and fields in the text families; the family, not the field, is the identity of the finding)."""
     if 'naive vs aware datetime' in text:
         return 'naive-datetime-becomes-gmt/%s' % name
-    if 'ContentSecurityPolicySourceKeyword' in text and 'ContentSecurityPolicySourceHost' in text:
-        return 'csp-quoted-keyword-as-host/%s' % name
-    if 'ContentSecurityPolicy' in name or 'ContentSecurityPolicy' in text or 'content-security-policy' in text.lower():
-        return 'csp-source-normalised/%s' % name
-    if (name in IDNA_CLASSES and clause.startswith('compose-fails')) or 'labels[' in text or 'host_name:' in text:
-        return 'idna-label-not-preserved/%s' % name
-    if name == 'DnsRecordDnskey':
-        return 'key-leading-zeros-not-preserved/%s' % name
-    if 'Url' in name or re.search(r'value\[\d\]: class NoneType != str', text) or 'TlsRpt' in name:
-        return 'url-normalised/%s' % name
-    if name.startswith('NameValuePairList') or (clause == 'unstable' and '="' in text):
-        return 'quoted-pair-normalised/%s' % name
-    if re.search(r'T(\d\d:\d\d:\d\d)\+00:00 != .*T\1\.\d+\+00:00', text) or 'datetime.timedelta(' in text:
-        return 'sub-second-dropped/%s' % name
-    if re.search(r'Date|Expires|LastModified|SetCookie', name):
-        return 'lenient-date-not-canonical/%s' % name
+    if not text_class:
+        if (name in IDNA_CLASSES and clause.startswith('compose-fails')) or 'labels[' in text or 'host_name:' in text:
+            return 'idna-label-not-preserved/%s' % name
+        if name == 'DnsRecordDnskey':
+            return 'key-leading-zeros-not-preserved/%s' % name
     return None
 
 
